@@ -364,6 +364,7 @@ type c15Built struct {
 	wants            []c15Want
 	contReq, contR   bool
 	chainReq, chainR bool // a header block of >= 3 fragments in that direction
+	late             bool // response-direction frames arrive for a stream that is gone already
 }
 
 func c15Build(p c15Pair) *c15Built {
@@ -378,6 +379,9 @@ func c15Build(p c15Pair) *c15Built {
 	r1, s1 = c15HasChain(bt.a)
 	r2, s2 = c15HasChain(bt.b)
 	bt.chainReq, bt.chainR = r1 || r2, s1 || s2
+	for _, it := range append(append([]c15Item(nil), bt.a...), bt.b...) {
+		bt.late = bt.late || it.Late
+	}
 	return bt
 }
 
@@ -408,6 +412,11 @@ func c15AttrVerdicts(res *c15Result, bt *c15Built) []c15Verdict {
 		return append(out, c15Verdict{"panic:" + res.Panic, "panic on well-formed traffic: " + res.PanicVal})
 	}
 	if res.BrokenReq || res.BrokenResp {
+		if res.BrokenResp && !res.BrokenReq && bt.late {
+			return append(out, c15Verdict{"gave-up-after-late-frames", fmt.Sprintf(
+				"the frame tracer of the response direction gave up on well-formed traffic in which response HEADERS / DATA / trailers arrive for a stream that was already reset by the client or dropped by GOAWAY (frames that were in flight; their header blocks still update the HPACK dynamic table every later block of the direction refers to); %d trace(s) delivered",
+				len(res.Traces))})
+		}
 		if (res.BrokenReq && bt.chainReq) || (res.BrokenResp && bt.chainR) {
 			return append(out, c15Verdict{"continuation-chain-lost", fmt.Sprintf(
 				"the frame tracer gave up on well-formed traffic that contains a header block of three or more fragments (HEADERS + 2..3 CONTINUATION; request direction gave up=%v, response direction=%v); %d trace(s) delivered instead of those of the named calls",
@@ -605,11 +614,7 @@ func c15CountSpecial(r *rep.Report, bt *c15Built, orders [][]byte) {
 	if pieces {
 		r.Count("interleavings:message-in-3-or-4-data-frames", int64(len(orders)))
 	}
-	hasLate := false
-	for _, it := range append(append([]c15Item(nil), bt.a...), bt.b...) {
-		hasLate = hasLate || it.Late
-	}
-	if !hasLate {
+	if !bt.late {
 		return
 	}
 	var n int64
